@@ -148,9 +148,7 @@ Print Assumptions C15_fs_dirs_delete_crash_confined.
 Theorem C15_fs_dirs_crash_keeps_other_files : forall t k n k', beq k k' = false ->
   memb k' (t_files (run_dops t (firstn n (put_dops t k)))) = memb k' (t_files t) /\
   memb k' (t_files (run_dops t (firstn n (del_dops t k)))) = memb k' (t_files t).
-Proof.
-  intros t k n k' H. split; [apply crash_keeps_other_files_gen | apply del_crash_keeps_other_files_gen]; exact H.
-Qed.
+Proof. exact crash_keeps_other_files_both. Qed.
 Print Assumptions C15_fs_dirs_crash_keeps_other_files.
 
 (* PutObject is not crash-atomic on the directory side either: a kill after MkdirAll leaves
